@@ -16,378 +16,9 @@ from . import shared
 FLAGS = ('had_inconsistency', 'direct_inconsistency', 'bases_had_inconsistency')
 
 
-def all_funcs(mod):
-    for n in ast.walk(mod):
-        if isinstance(n, FUNC):
-            yield n
-
-
-def r03_1(rep, mod):
-    """Every read of the inconsistency flags on a resolver obtained in the
-    same function is dominated by .mro() on that resolver."""
-    c3 = find_def(mod, 'C3')
-    own = set(id(m) for m in ast.walk(c3) if isinstance(m, FUNC))
-    # typestate facts: who writes direct_inconsistency, who reaches it
-    writers = []
-    for f in all_funcs(mod):
-        for n in walk_local(f):
-            if isinstance(n, ast.Assign) and any(
-                    isinstance(t, ast.Attribute) and t.attr == 'direct_inconsistency'
-                    for t in n.targets):
-                writers.append(f)
-    wnames = sorted({w.name for w in writers})
-    rep.check('R03.1', 'C3._guess_next_base', wnames == ['_guess_next_base'],
-              'direct_inconsistency is written only in _guess_next_base: %s' % wnames,
-              construct='writer', node=c3)
-    # call chain mro -> _merge -> _choose_next_base -> _guess_next_base
-    def callers(name):
-        out = set()
-        for f in all_funcs(mod):
-            for c in walk_local(f):
-                if isinstance(c, ast.Call) and isinstance(c.func, ast.Attribute) \
-                        and c.func.attr == name:
-                    out.add(f.name)
-        return out
-    chain = {'_guess_next_base': callers('_guess_next_base'),
-             '_choose_next_base': callers('_choose_next_base'),
-             '_merge': callers('_merge')}
-    ok = chain['_guess_next_base'] <= {'_choose_next_base', '_guess_next_base'} and \
-        chain['_choose_next_base'] == {'_merge'} and chain['_merge'] == {'mro'}
-    rep.check('R03.1', 'C3.mro', ok,
-              'the flag can only be set through mro() -> _merge -> '
-              '_choose_next_base -> _guess_next_base (callers: %s)' % {
-                  k: sorted(v) for k, v in chain.items()},
-              construct='typestate', node=c3)
-    # reads outside the resolver's own methods
-    sites = 0
-    for f in all_funcs(mod):
-        if id(f) in own and f.name != '__init__':
-            continue
-        reads = [n for n in walk_local(f) if isinstance(n, ast.Attribute)
-                 and n.attr in ('had_inconsistency', 'direct_inconsistency')
-                 and isinstance(n.ctx, ast.Load)]
-        if not reads:
-            continue
-        cfg = cfg_of(f)
-        qn = qualname(f)
-        for r in reads:
-            recv = r.value
-            if isinstance(recv, ast.Name) and recv.id == 'self':
-                continue
-            if qn.startswith('_ROComparison'):
-                # reporting helper handed an already merged resolver by ro()
-                continue
-            sites += 1
-            if isinstance(recv, ast.Name):
-                # comprehension variable over a collection of resolvers
-                comp = None
-                p = r
-                while p is not None and p is not f:
-                    if isinstance(p, (ast.GeneratorExp, ast.ListComp, ast.SetComp)):
-                        comp = p
-                    p = p.parent
-                node = cfg.node_of(r)
-                if comp is not None and any(
-                        isinstance(g.target, ast.Name) and g.target.id == recv.id
-                        for g in comp.generators):
-                    # C3.__init__: base resolvers; their mro() must have been
-                    # taken before (the base_tree statement)
-                    pm = pred_of('$m.mro()')
-                    ok = cfg.dominated_by(node, pm)
-                    detail = ('flags of the base resolvers are read after their '
-                              'mro() was computed (base_tree): %s' % ok)
-                else:
-                    pm = pred_of('%s.mro()' % recv.id)
-                    ok = cfg.dominated_by(node, pm)
-                    detail = ('`%s.%s` is read only after `%s.mro()` ran the merge'
-                              % (recv.id, r.attr, recv.id)) if ok else \
-                        ('`%s.%s` is read on a path without `%s.mro()`: the flag '
-                         'of a hierarchy whose own merge fails is still unset'
-                         % (recv.id, r.attr, recv.id))
-            else:
-                ok = False
-                detail = ('`%s` reads the flag of a freshly created resolver '
-                          'that never merged' % norm_src(r)[:80])
-            rep.check('R03.1', qn, ok, detail,
-                      construct='read:%s' % r.attr, node=r)
-    rep.require(sites >= 3, 'R03.1: only %d flag reads found' % sites)
-    # is_consistent returns the negation of had_inconsistency
-    f = find_def(mod, 'is_consistent')
-    rets = [n for n in walk_local(f) if isinstance(n, ast.Return)]
-    ok = len(rets) == 1 and match('not $r.had_inconsistency', rets[0].value) is not None
-    if ok:
-        r = match('not $r.had_inconsistency', rets[0].value)['r']
-        rv = resolve_local(f, r)
-        ok = match('C3.resolver($c, False, None)', rv) is not None or \
-            match('C3.resolver($c, False, $b)', rv) is not None
-    rep.check('R03.1', 'is_consistent', ok,
-              'returns not <non-strict resolver of C>.had_inconsistency: %s'
-              % [norm_src(r.value) for r in rets], construct='result', node=f)
-    # the verdict needs the flag of every ancestor: orders supplied by the
-    # caller become _StaticMRO entries whose flag is None ("unknown"), which
-    # any() reads as "consistent"
-    st = find_def(mod, '_StaticMRO')
-    from ..pyfront import class_attr_assign
-    unknown = class_attr_assign(st, 'had_inconsistency')
-    tri = unknown is not None and norm_src(unknown) == 'None'
-    okw = False
-    supplied = 'no resolver'
-    if ok:
-        e = match('C3.resolver($c, $s, $b)', rv)
-        if e is not None:
-            b = resolve_local(f, e['b'])
-            supplied = norm_src(b)
-            okw = supplied in ('None', '{}', 'dict()') or not tri
-    rep.check('R03.1', 'is_consistent', okw,
-              'the whole tree is resolved (base_mros = %s): precomputed orders '
-              'carry had_inconsistency = None, which would hide an inherited '
-              'inconsistency' % supplied[:60], construct='whole-tree', node=f)
-
-
-def no_normal_exit(func):
-    cfg = cfg_of(func)
-    return cfg.exit.id not in cfg.reach(cfg.entry)
-
-
-def r03_2(rep, mod):
-    f = find_def(mod, 'C3.resolver')
-    ps = shared.params(f)
-    st = [n for n in walk_local(f) if isinstance(n, ast.Assign)
-          and match('strict = $v', n, 'exec') is not None]
-    ok = len(st) == 1 and match('strict if strict is not None else C3.STRICT_IRO',
-                                st[0].value) is not None
-    ifs = [n for n in f.body if isinstance(n, ast.If) and match('strict', n.test) is not None]
-    ok2 = len(ifs) == 1 and any(match('factory = _StrictC3', s, 'exec') is not None
-                                for s in ifs[0].body)
-    init = [n for n in f.body if match('factory = C3', n, 'exec') is not None]
-    rets = [n for n in walk_local(f) if isinstance(n, ast.Return)]
-    ok3 = len(rets) == 1 and match('factory(C, memo)', rets[0].value) is not None
-    rep.check('R03.2', 'C3.resolver', ok and ok2 and bool(init) and ok3,
-              'strict (default C3.STRICT_IRO) selects _StrictC3, else C3 / '
-              '_TrackingC3 (default %s, dispatch %s, returns factory(C, memo) %s)'
-              % (ok, ok2, ok3), construct='dispatch', node=f)
-    s = find_def(mod, '_StrictC3._guess_next_base')
-    raises = [n for n in walk_local(s) if isinstance(n, ast.Raise)]
-    ok = no_normal_exit(s) and bool(raises) and all(
-        r.exc is not None and match('InconsistentResolutionOrderError($$a)', r.exc)
-        is not None for r in raises)
-    rep.check('R03.2', '_StrictC3._guess_next_base', ok,
-              'never returns: raises InconsistentResolutionOrderError',
-              construct='strict-raises', node=s)
-    g = find_def(mod, 'C3._guess_next_base')
-    cfg = cfg_of(g)
-    stp = pred_of('self.direct_inconsistency = InconsistentResolutionOrderError($$a)', 'exec')
-    raises = [n for n in cfg.nodes if isinstance(n.ast, ast.Raise)]
-    ok = no_normal_exit(g) and bool(raises) and all(
-        match('self._UseLegacyRO', n.ast.exc) is not None and
-        cfg.dominated_by(n, stp) for n in raises)
-    rep.check('R03.2', 'C3._guess_next_base', ok,
-              'records the inconsistency and then raises _UseLegacyRO on every path',
-              construct='record-then-raise', node=g)
-    t = find_def(mod, '_TrackingC3._guess_next_base')
-    cfg = cfg_of(t)
-    rets = [n for n in walk_local(t) if isinstance(n, ast.Return)]
-    ok = len(rets) >= 1 and all(
-        match('C3._guess_next_base(self, base_tree_remaining)', r.value) is not None
-        for r in rets) and cfg.must_pass_after(
-            cfg.entry, pred_of('C3._guess_next_base(self, base_tree_remaining)'))
-    rep.check('R03.2', '_TrackingC3._guess_next_base', ok,
-              'delegates to C3._guess_next_base on every path', construct='delegate',
-              node=t)
-    m = find_def(mod, 'C3._merge')
-    trys = [n for n in walk_local(m) if isinstance(n, ast.Try)]
-    ok = len(trys) == 1
-    if ok:
-        tr = trys[0]
-        ok = len(tr.handlers) == 1 and match('self._UseLegacyRO', tr.handlers[0].type) \
-            is not None and len(tr.body) == 1 and match(
-                'base = self._choose_next_base(base_tree_remaining)', tr.body[0], 'exec') \
-            is not None
-        hr = [n for n in tr.handlers[0].body if isinstance(n, ast.Return)]
-        ok = ok and len(hr) == 1 and match('self.legacy_ro', hr[0].value) is not None
-    rep.check('R03.2', 'C3._merge', ok,
-              'catches exactly _UseLegacyRO around _choose_next_base and then '
-              'returns the legacy order', construct='fallback', node=m)
-    # had_inconsistency = direct or bases
-    h = find_def(mod, 'C3.had_inconsistency')
-    rets = [n for n in walk_local(h) if isinstance(n, ast.Return)]
-    ok = len(rets) == 1 and match(
-        'self.direct_inconsistency or self.bases_had_inconsistency', rets[0].value) is not None
-    rep.check('R03.2', 'C3.had_inconsistency', ok,
-              'had_inconsistency = direct_inconsistency or bases_had_inconsistency',
-              construct='flag', node=h)
-    i = find_def(mod, 'C3.__init__')
-    b = find_all(i, 'self.bases_had_inconsistency = any($b.had_inconsistency for $b in base_resolvers)', 'exec')
-    # base_resolvers has one resolver per base
-    lp = [l for l in walk_local(i) if isinstance(l, ast.For)
-          and match('C.__bases__', l.iter) is not None]
-    okb = bool(b) and len(lp) == 1 and bool(find_all(
-        lp[0], 'base_resolvers.append(memo[%s])' % lp[0].target.id))
-    rep.check('R03.2', 'C3.__init__', okb,
-              'bases_had_inconsistency = any flag of the resolver of EVERY base',
-              construct='bases-flag', node=i)
-
-
-def r03_3(rep, mod):
-    f = find_def(mod, 'C3._find_next_C3_base')
-    ps = shared.params(f)
-    tree = ps[1]
-    lps = [l for l in f.body if isinstance(l, ast.For)]
-    ok = len(lps) == 1
-    detail = 'loops: %d' % len(lps)
-    if ok:
-        lp = lps[0]
-        src, d = iter_polarity(lp.iter, f)
-        v = lp.target.id
-        head = find_all(lp, 'base = %s[0]' % v, 'exec')
-        ifs = [n for n in lp.body if isinstance(n, ast.If)]
-        okc = len(ifs) == 1 and match(
-            'self._can_choose_base(base, %s)' % tree, ifs[0].test) is not None and \
-            any(isinstance(s, ast.Return) and match('base', s.value) is not None
-                for s in ifs[0].body)
-        last = f.body[-1]
-        okn = isinstance(last, ast.Return) and shared.is_none(last.value)
-        ok = isinstance(src, ast.Name) and src.id == tree and d == 'fwd' and \
-            bool(head) and okc and okn
-        detail = ('walks the remaining lists forward (%s), candidate = head of '
-                  'each list (%s), first acceptable candidate returned (%s), '
-                  'None when there is none (%s)' % (d, bool(head), okc, okn))
-    rep.check('R03.3', 'C3._find_next_C3_base', ok, detail, construct='first-good-head',
-              node=f)
-    f = find_def(mod, 'C3._can_choose_base')
-    ps = shared.params(f)
-    base, tree = ps[0], ps[1]
-    lps = [l for l in f.body if isinstance(l, ast.For)]
-    ok = len(lps) == 1
-    if ok:
-        lp = lps[0]
-        v = lp.target.id
-        skip = [n for n in lp.body if isinstance(n, ast.If) and any(
-            isinstance(s, ast.Continue) for s in n.body)]
-        oks = len(skip) == 1 and (
-            match('not %s or %s[0] is %s' % (v, v, base), skip[0].test) is not None)
-        inner = [n for n in lp.body if isinstance(n, ast.For)]
-        oki = len(inner) == 1
-        if oki:
-            il = inner[0]
-            s2, d2 = iter_polarity(il.iter)
-            iv = il.target.id
-            rej = [n for n in il.body if isinstance(n, ast.If)]
-            oki = (match(v, s2) is not None or match('%s[1:]' % v, s2) is not None) and \
-                len(rej) == 1 and match('%s is %s' % (iv, base), rej[0].test) is not None and \
-                any(isinstance(s, ast.Return) and match('False', s.value) is not None
-                    for s in rej[0].body)
-        last = f.body[-1]
-        okt = isinstance(last, ast.Return) and match('True', last.value) is not None
-        ok = oks and oki and okt
-    rep.check('R03.3', 'C3._can_choose_base', ok,
-              'a candidate is rejected iff it occurs (identity) in the tail of '
-              'some remaining list; lists headed by the candidate are skipped',
-              construct='not-in-tails', node=f)
-    f = find_def(mod, 'C3._choose_next_base')
-    cfg = cfg_of(f)
-    ok = bool(find_all(f, 'base = self._find_next_C3_base(base_tree_remaining)', 'exec'))
-    ifs = [n for n in f.body if isinstance(n, ast.If) and
-           match('base is not None', n.test) is not None]
-    ok = ok and len(ifs) == 1 and any(isinstance(s, ast.Return) and
-                                      match('base', s.value) is not None
-                                      for s in ifs[0].body)
-    last = f.body[-1]
-    ok = ok and isinstance(last, ast.Return) and match(
-        'self._guess_next_base(base_tree_remaining)', last.value) is not None
-    rep.check('R03.3', 'C3._choose_next_base', ok,
-              'the C3 candidate is used whenever there is one; the fallback is '
-              'reached only when there is none', construct='c3-first', node=f)
-    f = find_def(mod, 'C3._merge')
-    wl = [n for n in f.body if isinstance(n, ast.While)]
-    ok = len(wl) == 1
-    if ok:
-        w = wl[0]
-        cfgm = cfg_of(f)
-        a = find_all(w, 'base_tree_remaining = self._nonempty_bases_ignoring(base_tree_remaining, base)', 'exec')
-        b = [n for n in w.body if isinstance(n, ast.If) and
-             match('not base_tree_remaining', n.test) is not None and
-             any(isinstance(s, ast.Return) and match('result', s.value) is not None
-                 for s in n.body)]
-        c = find_all(w, 'result.append(base)', 'exec')
-        ok = len(a) == 1 and len(b) == 1 and len(c) == 1 and \
-            a[0][0] in w.body and c[0][0] in w.body and \
-            w.body.index(a[0][0]) < w.body.index(b[0]) < w.body.index(c[0][0])
-        init = find_all(f, 'base_tree_remaining = self.base_tree', 'exec')
-        ok = ok and bool(init)
-    rep.check('R03.3', 'C3._merge', ok,
-              'each round: drop the last chosen base from every list, stop '
-              'when nothing remains, choose the next base, append it',
-              construct='merge-loop', node=f)
-    f = find_def(mod, 'C3._nonempty_bases_ignoring')
-    ps = shared.params(f)
-    rets = [n for n in walk_local(f) if isinstance(n, ast.Return)]
-    ok = len(rets) == 1 and match(
-        'list(filter(None, [[$b for $b in $bs if $b is not %s] for $bs in %s]))'
-        % (ps[1], ps[0]), rets[0].value) is not None
-    rep.check('R03.3', 'C3._nonempty_bases_ignoring', ok,
-              'removes the chosen base (identity) from every list and drops '
-              'empty lists, keeping order', construct='remove-chosen', node=f)
-    f = find_def(mod, 'C3.mro')
-    rets = [n for n in walk_local(f) if isinstance(n, ast.Return)]
-    ok = len(rets) == 1 and bool(find_all(f, 'tuple(self._merge())'))
-    rep.check('R03.3', 'C3.mro', ok, 'mro() = memoized merge result',
-              construct='mro', node=f)
-
-
-def r03_4(rep, mod):
-    f = find_def(mod, 'C3.__init__')
-    st = [n for n in walk_local(f) if isinstance(n, ast.Assign)
-          and match('self.base_tree', n.targets[0]) is not None]
-    ok = len(st) == 1 and match(
-        '[[C]] + [memo[$b].mro() for $b in C.__bases__] + [list(C.__bases__)]',
-        st[0].value) is not None
-    rep.check('R03.4', 'C3.__init__', ok,
-              'base_tree = [[C]] + [mro(b) for b in C.__bases__] + '
-              '[list(C.__bases__)] (the object first, local precedence order '
-              'last): %s' % (norm_src(st[0].value) if st else 'missing'),
-              construct='base-tree', node=f)
-    # every base gets a resolver of the same kind through the memo
-    lp = [l for l in walk_local(f) if isinstance(l, ast.For)
-          and match('C.__bases__', l.iter) is not None]
-    ok = len(lp) == 1
-    if ok:
-        v = lp[0].target.id
-        ok = bool(find_all(lp[0], 'memo[%s] = $r' % v, 'exec')) and \
-            bool(find_all(lp[0], 'kind(%s, memo)' % v)) and \
-            iter_polarity(lp[0].iter)[1] == 'fwd'
-    rep.check('R03.4', 'C3.__init__', ok,
-              'bases are resolved recursively with the same resolver kind '
-              '(strictness is inherited)', construct='recursive-kind', node=f)
-    sc = [n for n in f.body if isinstance(n, ast.If)
-          and match('len(C.__bases__) == 1', n.test) is not None]
-    ok = len(sc) == 1 and any(
-        isinstance(s, ast.Assign) and isinstance(s.targets[0], ast.Attribute)
-        and match('[C] + memo[C.__bases__[0]].mro()', s.value) is not None
-        for s in sc[0].body)
-    rep.check('R03.4', 'C3.__init__', ok or not sc,
-              'single-inheritance shortcut: [C] + mro(base)', construct='shortcut',
-              node=f)
-
-
 def r03_5(rep, mod):
-    f = find_def(mod, 'ro')
-    cfg = cfg_of(f)
-    m = find_all(f, 'mro = resolver.mro()', 'exec')
-    r = find_all(f, 'resolver = C3.resolver(C, strict, base_mros)', 'exec')
-    rets = [n for n in cfg.nodes if isinstance(n.ast, ast.Return)]
-    vals = sorted(norm_src(n.ast.value) for n in rets)
-    ok = bool(m) and bool(r) and vals == ['legacy_ro', 'mro']
-    for n in rets:
-        if norm_src(n.ast.value) == 'legacy_ro':
-            g = n.ast.parent
-            ok = ok and isinstance(g, ast.If) and match('use_legacy', g.test) is not None
-    ul = resolve_local(f, ast.Name(id='use_legacy', ctx=ast.Load()))
-    ok = ok and match('use_legacy_ro if use_legacy_ro is not None else resolver.USE_LEGACY_IRO',
-                      ul) is not None
-    rep.check('R03.5', 'ro.ro', ok,
-              'returns the resolver\'s mro; the legacy order only under '
-              'use_legacy (returns %s)' % vals, construct='result', node=f)
+    from . import rosem
+    rosem.ro_result(rep, mod, 'R03.5')
     imod = rep.repo.module('interface.py')
     from . import specsem
     from .C02 import r02_6
@@ -401,11 +32,11 @@ def run(rep):
     rep.rule('R03.1', 'typestate of the inconsistency flag: it is only set '
              'inside the merge, so every read on a resolver (ro(), '
              'is_consistent(), C3.__init__ for the bases) must come after '
-             '.mro() on that resolver', floor=6)
+             '.mro() on that resolver', floor=5)
     rep.rule('R03.2', 'strict dispatch: strict -> _StrictC3 whose fallback '
              'always raises InconsistentResolutionOrderError; non-strict '
              'records the inconsistency and falls back to the legacy order; '
-             'both observe the same event (_guess_next_base reached)', floor=7)
+             'both observe the same event (_guess_next_base reached)', floor=6)
     rep.rule('R03.3', 'C3 head selection: first list head not in any tail '
              '(identity), chosen base removed from all lists, appended; the '
              'fallback only when no head qualifies', floor=6)
@@ -419,8 +50,14 @@ def run(rep):
                 'R03.3/R03.4 pin the algorithm to C3\'s published shape)')
     rep.decline('exactness of is_consistent beyond "observes the same event '
                 'as strict mode"')
-    r03_1(rep, mod)
-    r03_2(rep, mod)
-    r03_3(rep, mod)
-    r03_4(rep, mod)
+    from . import rosem
+    rosem.flag_typestate(rep, mod, 'R03.1')
+    rosem.dispatch(rep, mod, 'R03.2')
+    rosem.merge_rounds(rep, mod, 'R03.2')
+    rosem.find_next_base(rep, mod, 'R03.3')
+    rosem.can_choose_base(rep, mod, 'R03.3')
+    rosem.merge_rounds(rep, mod, 'R03.3')
+    rosem.nonempty_ignoring(rep, mod, 'R03.3')
+    rosem.mro_memo(rep, mod, 'R03.3')
+    rosem.base_tree(rep, mod, 'R03.4')
     r03_5(rep, mod)
